@@ -92,7 +92,7 @@ def c17 (op : String) (a : Array Json) : R (Option Json) := do
       ("namespace", Json.arr (Gen.namespaceAttrs.map fun e => Json.arr #[nameJ e.1, Json.str (kindStr e.2.1), nameJ e.2.2]).toArray),
       ("mro", Json.mkObj (Gen.classMro.map fun e => (nameStr e.1, listJ nameJ e.2))),
       ("instance", Json.mkObj (Gen.instanceAttrs.map fun e => (nameStr e.1, listJ nameJ e.2))),
-      ("array_namespace", nameJ Gen.arrayNamespaceModule),
+      ("array_namespace", nameJ Gen.arrayNamespaceModule), ("bind_fallback", Json.bool Gen.nep18BindFallback),
       ("operators", Json.arr (Gen.operatorTable.map fun e => Json.arr #[nameJ e.1, nameJ e.2.1, nameJ e.2.2]).toArray),
       ("gufuncs", listJ nameJ Gen.gufuncs),
       ("numpy_functions", Json.arr (Gen.numpyFunctions.map fun e => Json.arr #[nameJ e.1, listJ nameJ e.2.1, nameJ e.2.2]).toArray),
@@ -123,18 +123,20 @@ def c17 (op : String) (a : Array Json) : R (Option Json) := do
       let sp ← spellingOf kind n
       pure (some (exceptJ targetJ (resolve Gen.dispatchTable cls sp)))
   | "c17_nep18" =>
-    -- [cls, [[path…], name, nargs, nkw] …] -> lookup result for each
+    -- [cls, [[path…], name, npos, [keyword names…]] …] -> lookup result for each
     let cls ← nameId (← (← arg a 1).getStr?)
     let qs ← (← arg a 2).getArr?
-    let env := genEnv Gen.dispatchTable cls
     let outs ← qs.toList.mapM fun q => do
       let path ← jList (fun j => j.getStr?) (← q.getArrVal? 0)
       let name ← (← q.getArrVal? 1).getStr?
-      let nargs ← jNat (← q.getArrVal? 2); let nkw ← jNat (← q.getArrVal? 3)
+      let npos ← jNat (← q.getArrVal? 2)
+      let kws ← jList (fun j => j.getStr?) (← q.getArrVal? 3)
       -- names the source never mentions resolve to nothing anywhere
-      let pathIds := path.map fun p => (Gen.names.idxOf? p).getD Gen.names.length
-      let nid := (Gen.names.idxOf? name).getD Gen.names.length
-      pure (Json.str (nep18Str (nep18 env pathIds nid nargs nkw)))
+      let unknown := Gen.names.length
+      let pathIds := path.map fun p => (Gen.names.idxOf? p).getD unknown
+      let nid := (Gen.names.idxOf? name).getD unknown
+      let kwIds := kws.map fun k => (Gen.names.idxOf? k).getD unknown
+      pure (Json.str (nep18Str (nep18Gen Gen.dispatchTable cls pathIds nid npos kwIds)))
     pure (some (okJ (Json.arr outs.toArray)))
   | "c17_ufunc_route" =>
     let o ← jBool (← arg a 1); let s ← jBool (← arg a 2); let m ← (← arg a 3).getStr?
